@@ -150,4 +150,34 @@ Proof.
   rewrite trmx_mul -!mulmxA -mulmxDr -mulmxDl (half_tril_sum H2 HS).
   rewrite /S !mulmxA mulmxV // mul1mx -mulmxA -trmx_mul mulmxV // trmx1 mulmx1. by [].
 Qed.
+(* the retry loop of AddJitterOp returns x shifted by ONE member of the documented jitter
+   sequence (the one of the first successful attempt): shifts of failed rounds do not accumulate *)
+Lemma jitter_loop_spec (init growth : F) : init != 0 -> growth != 0 ->
+  forall (oracle : seq bool) (i : nat), has id oracle ->
+    jitter_loop oracle (jitter_seq init growth i) init growth = Some (jitter_seq init growth (i + find id oracle)).
+Proof.
+  move=> Hi Hg. elim=> [//|ok r IH] i /=.
+  case: ok => /= [_|Hr]; first by rewrite addn0.
+  rewrite addnS -addSn -(IH i.+1 Hr). congr (jitter_loop _ _ _ _).
+  case: i => [|i] /=; first by rewrite eqxx expr0 mulr1.
+  by rewrite mulf_eq0 (negbTE Hi) (negbTE (expf_neq0 _ Hg)) /= -mulrA -exprSr.
+Qed.
+
+Theorem addjitter_op_no_accumulation (X : 'M[F]_n) (sigsq init growth : F) (oracle : seq bool) :
+  init != 0 -> growth != 0 -> has id oracle ->
+  addjitter_op X sigsq init growth oracle =
+  Some (X + (sigsq + jitter_seq init growth (find id oracle))%:M).
+Proof.
+  move=> Hi Hg Ho. rewrite /addjitter_op.
+  by rewrite (jitter_loop_spec Hi Hg 0 Ho) /= add0n.
+Qed.
+
+Lemma addjitter_op_exhausted (X : 'M[F]_n) (sigsq init growth : F) (oracle : seq bool) :
+  ~~ has id oracle -> addjitter_op X sigsq init growth oracle = None.
+Proof.
+  move=> Hn.
+  have H : forall j, jitter_loop oracle j init growth = None.
+  { elim: oracle Hn => [//|ok r IH] /=. case: ok => //= Hr j. exact: IH. }
+  by rewrite /addjitter_op H.
+Qed.
 End P.
